@@ -88,6 +88,9 @@ UpdVerdict(cfg, st, e, u, k) ==
   ELSE IF ProjSet(e.nlog) # ProjSet(u.nlog) THEN Fail("delay-shift-notify", k)
   ELSE IF ~CanonOK(cfg, st, e) THEN Fail("canon", k)
   ELSE IF ~WSumOK(cfg, e) \/ ~WSumCanonOK(cfg, st, e, u) THEN Fail("weighted-sum", k)
+  \* every read of a static input delivers the static source's only publication
+  ELSE IF "sins" \in DOMAIN cfg.comps[c] /\ e.sgot # [j \in 1..Len(cfg.comps[c].sins) |-> cfg.tb * cfg.comps[c].sins[j]]
+       THEN Fail("static-input", k)
   ELSE IF ~TimeEq(cfg, u.s, e.snap) THEN Fail("times", k)
   ELSE IF ~PubsEq(cfg, u.s, e.snap) THEN Fail("retained", k)
   ELSE IF e.snap.stray # 0 THEN Fail("files-in-location", k)
